@@ -13,6 +13,7 @@ import Hts.Lemmas.CacheHist
 import Hts.Lemmas.CachePolicy
 import Hts.Lemmas.CacheClient
 import Hts.Lemmas.CacheLinInst
+import Hts.Lemmas.CachePost
 namespace Hts.Props.C14
 open Hts.Model.Cache Hts.Spec.CacheContract Hts.Spec.Lin
 
@@ -243,6 +244,71 @@ theorem resize_post_random (h : Heap) (c c' : RCache) (n : Int) (vs : List Nat) 
       exact ⟨rfl, by simp only [RCache.len]; omega⟩
     · cases hd
 
+/-- Random `Drop(n)`, exact count: when no block is indexed twice (true in every state reached by
+reader-style use, `random_reader_style_ids_distinct`) exactly `min (max n 0) Len` blocks leave -/
+theorem drop_post_random_exact (h : Heap) (c c' : RCache) (n : Int) (vs : List Nat) (hid : c.IdsNodup)
+    (hd : c.drop h n vs = some c') :
+    c'.cap = c.cap ∧ c'.len = c.len - min (max n 0) c.len ∧ c'.IdsNodup :=
+  RCache.drop_post_exact hid hd
+
+/-- Random `Resize(n)`, exact count -/
+theorem resize_post_random_exact (h : Heap) (c c' : RCache) (n : Int) (vs : List Nat) (hn : 0 ≤ n)
+    (hid : c.IdsNodup) (hd : c.resize h n vs = some c') :
+    c'.cap = n ∧ c'.len = min c.len n ∧ c'.IdsNodup :=
+  RCache.resize_post_exact hn hid hd
+
+/-- `cache.Free(n, c)` on Random: the same post-condition as for LRU/FIFO (`free_post_lru_fifo`) -/
+theorem free_post_random (h : Heap) (c c' : RCache) (b : Bool) (n : Int) (vs : List Nat) (w : c.WF)
+    (hid : c.IdsNodup) (hd : c.free h n vs = some (c', b)) :
+    c'.cap = c.cap ∧ (b = true ↔ n ≤ c.cap) ∧ (b = true → n ≤ c'.cap - c'.len) ∧
+    c'.len = c.len - min (max (n - (c.cap - c.len)) 0) c.len ∧ c'.IdsNodup :=
+  RCache.free_post w hid hd
+
+/-- the guard of the three theorems above holds in every state reached by reader-style use of a Random cache -/
+theorem random_reader_style_ids_distinct (n : Int) (hn : 1 ≤ n) (h0 : Heap) (s : Client RCache)
+    (r : Reach randomOps RCache.WF (RCache.new n) h0 s) : s.cache.IdsNodup := by
+  have co := reach_coherent random_contract (RCache.wf_new hn) rfl r
+  have kn : KeysNodup s.cache.items := co.wf.nodup
+  unfold RCache.IdsNodup List.Nodup
+  rw [List.pairwise_map]
+  exact List.Pairwise.imp_of_mem (fun {a b} ha hb hab hid => hab (congrArg Entry.key (co.ids a ha b hb hid))) kn
+
+/-! ### Get / Peek follow the stated policy too; StatsRecorder counters -/
+
+/-- LRU/FIFO `Get` and `Peek` on the linked list are `PolicyQ.get` / `PolicyQ.peek`, which are written
+without reference to the list: same answer, corresponding successor -/
+theorem lru_fifo_get_peek_follow_policy (kind : Kind) (h : Heap) (q : PolicyQ) (k : Int) :
+    q.abs.get kind h k = ((q.get (kind == .fifo) h k).1.abs, (q.get (kind == .fifo) h k).2) ∧
+    q.abs.peek h k = q.peek h k := by
+  obtain ⟨h1, h2⟩ := PolicyQ.abs_get_full kind h q k
+  exact ⟨Prod.ext h1.symm h2.symm, (PolicyQ.abs_peek h q k).symm⟩
+
+/-- A StatsRecorder over ANY cache, any history of Get/Put/Peek with the heap changing arbitrarily: the
+answers and the wrapped cache's final state are those of the bare cache, and the counters are
+`Gets` = number of Gets, `Misses` = Gets answered nil, `Puts` = number of Puts, `Retains` = Puts answered
+retained, `Evictions` = Puts that handed a block back. -/
+theorem recorder_counters_follow_history {σ : Type} (o : CacheOps σ) (s : σ) (hist : List (Heap × RecOp))
+    (t : σ) (st : Stats) (as : List RecAns)
+    (hr : runAns (recorderOps o) (s, {}) hist = some ((t, st), as)) :
+    runAns o s hist = some (t, as) ∧
+    st.gets = count RecAns.isGet as ∧
+    st.misses = count RecAns.isMiss as ∧
+    st.puts = count RecAns.isPut as ∧
+    st.retains = count RecAns.isRetain as ∧
+    st.evictions = count RecAns.isEvict as := by
+  rw [recorder_run] at hr
+  cases hb : runAns o s hist with
+  | none => rw [hb] at hr; cases hr
+  | some p =>
+    obtain ⟨t', as'⟩ := p
+    rw [hb] at hr
+    simp only [Option.map_some, Option.some.injEq, Prod.mk.injEq] at hr
+    obtain ⟨⟨ht, hst⟩, has⟩ := hr
+    subst ht has
+    obtain ⟨h1, h2, h3, h4, h5⟩ := tally_counts {} as'
+    rw [hst] at h1 h2 h3 h4 h5
+    exact ⟨rfl, by simpa using h1, by simpa using h2, by simpa using h3, by simpa using h4, by simpa using h5⟩
+
 /-! ### concurrent use is linearizable -/
 
 /-- generic: lock; body in any number of small steps; unlock  ⇒  every history (any number of threads, any
@@ -260,6 +326,26 @@ theorem random_linearizable (h : Heap) (n : Int) (g : G (rObj h)) (w : List (Ev 
     (r : Hts.Spec.Lin.Reach (rObj h) (RCache.new n) g w) :
     Linearizable (rObj h) (RCache.new n) (visible (rObj h) w) :=
   rcache_linearizable h n r
+
+/-- A call reads the heap only at the blocks the cache holds and at its argument; everything else may be
+written by its owner while the call runs (so "the heap a call observes" below is well defined for race-free
+clients). -/
+theorem lru_fifo_call_reads_held_blocks_only (kind : Kind) (h h' : Heap) (c : LCache) (op : Call)
+    (hheld : ∀ e ∈ c.items, h e.id = h' e.id) (harg : ∀ id, op = .put id → h id = h' id) :
+    LCache.call kind h c op = LCache.call kind h' c op :=
+  LCache.call_frame kind h h' c op hheld harg
+
+/-- linearizability with the heap changing between (and differing for) the operations: every call carries
+the heap it observes -/
+theorem lru_fifo_linearizable_any_heaps (kind : Kind) (n : Int) (g : G (lObjH kind))
+    (w : List (Ev (lObjH kind))) (r : Hts.Spec.Lin.Reach (lObjH kind) (LCache.new n) g w) :
+    Linearizable (lObjH kind) (LCache.new n) (visible (lObjH kind) w) :=
+  lcacheH_linearizable kind n r
+
+theorem random_linearizable_any_heaps (n : Int) (g : G rObjH) (w : List (Ev rObjH))
+    (r : Hts.Spec.Lin.Reach rObjH (RCache.new n) g w) :
+    Linearizable rObjH (RCache.new n) (visible rObjH w) :=
+  rcacheH_linearizable n r
 
 /-- StatsRecorder `Get`/`Put`/`Stats`/`Reset` with their bodies in small steps (counter, inner call, counter) -/
 theorem recorder_linearizable {σ : Type} (o : CacheOps σ) (h : Heap) (c0 : σ) (g : G (recObj o h))
@@ -285,6 +371,12 @@ example : ∀ x ∈ [(exHeap, LOp.put 0), (exHeap, .put 1), (exHeap, .put 2), (e
 
 /-- the third Put evicted block 0, the oldest -/
 example : ((((LCache.new 2).put exHeap 0).1.put exHeap 1).1.put exHeap 2).2 = .kept (some 0) := by decide
+
+/-- `recorder_counters_follow_history` on a history with a hit, a miss and an eviction:
+Gets 2, Misses 1, Puts 3, Retains 3, Evictions 1 -/
+example : (runAns (recorderOps lruOps) (LCache.new 1, {})
+    [(exHeap, .put 0 none), (exHeap, .get 0), (exHeap, .get 0), (exHeap, .put 1 none), (exHeap, .put 2 none)]).map
+      (fun x => x.1.2) = some ⟨2, 1, 3, 3, 1⟩ := by decide
 
 /-- a reachable reader-style state with a non-empty LRU (hypotheses of `get_returns_requested_base`) -/
 example : ∃ s, Reach lruOps LCache.WF (LCache.new 1) exHeap s ∧ s.cache.items = [⟨0, 0⟩] := by
